@@ -2,7 +2,11 @@
 (`_extract_tables`, `_extract_table_cells`, `_strip_rtf_simple`) and the property oracle for written RTF documents.
 
 correspondence
-  * structured stream: abstract documents (paragraphs + tables) written by the LEAN renderer (`c13.rtf.render`);
+  * structured stream: abstract documents (paragraphs + tables) written by the LEAN renderer (`c13.rtf.render`, and
+    `c13.rtf.renderl` for tables written with a ROW LAYOUT: every slot between the table tokens of a row - behind
+    \\trowd, between / behind the \\cellxN, around the paragraphs of a cell, between them, behind \\cell, a group around the
+    row, behind \\row - filled independently with one of the separators the format allows: nothing, a space, LF, CR LF,
+    braces, further control words; harness/builders/c13r.py);
     the text must be byte-identical to what the Python reference writer produces; the real `_extract_tables` on that
     text vs. the model; where the hypotheses of the theorems hold (plain cells, separated tables) vs. the Lean spec;
     the same text through the real `read_rtf` / `iterate_tables()`;
@@ -20,7 +24,7 @@ import json
 import re
 
 from run import Broken, Violation
-from builders import c13b
+from builders import c13b, c13r
 
 RAW_GAP, TEXT_GAP, HEX_RUN = 100, 20, 64     # the documented heuristics (open finding rtf.adjacent-tables-merged)
 
@@ -61,10 +65,11 @@ def gen_table(rng, ragged=True):
     return rows
 
 
-def gap_lengths(paras):
+def gap_lengths(paras, behind_row="\n", before_trowd=""):
     """(characters of RTF, characters of text) between the last \\row of a table and the next \\trowd when the
-    normalised paragraphs `paras` stand between them (independent of the Lean model)"""
-    raw = 1 + sum(len("\\pard ") + len(c13b._rtf_esc(p)) + len("\\par\n") for p in paras)
+    normalised paragraphs `paras` stand between them (independent of the Lean model); `behind_row` = what the layout of
+    the last row puts behind its \\row, `before_trowd` = what the layout of the next row puts in front of its \\trowd"""
+    raw = len(behind_row) + len(before_trowd) + sum(len("\\pard ") + len(c13b._rtf_esc(p)) + len("\\par\n") for p in paras)
     text = sum(len(p) for p in paras) + max(0, len(paras) - 1)
     return raw, text
 
@@ -84,8 +89,50 @@ def separating_paras(rng):
     return ps
 
 
-def gen_rtf_case(rng, adjacent=False):
-    """blocks = ["p", text] | ["t", rows]; adjacent=True: shapes of the open findings are allowed"""
+def is_table(b):
+    return b[0] in ("t", "tl")
+
+
+def layouts_of(b):
+    """the row layouts of a table block (defaults filled in)"""
+    if b[0] == "tl":
+        return [c13r.norm(L) for L in b[2]]
+    return [dict(c13r.DEFAULT) for _ in b[1]]
+
+
+def behind_row(L):
+    return c13r.row_close(L) + L["row_end"]
+
+
+def with_layouts(rng, case, p=0.65):
+    """the same document, its tables written with row layouts"""
+    out = []
+    for b in case["blocks"]:
+        if b[0] == "t" and rng.random() < p:
+            out.append(["tl", b[1], c13r.gen_layouts(rng, len(b[1]))])
+        else:
+            out.append(b)
+    return {"blocks": out}
+
+
+def gen_rtf_case(rng, adjacent=False, layouts=True):
+    """blocks = ["p", text] | ["t", rows] | ["tl", rows, layouts]; adjacent=True: shapes of the open findings are allowed"""
+    c = _gen_rtf_case(rng, adjacent)
+    if not layouts:
+        return c
+    c = with_layouts(rng, c)
+    if not adjacent:
+        # a layout may take a character or two from the text between two tables: keep it above the limits of the heuristic
+        for _ in range(3):
+            if "rtf.adjacent-tables-merged" not in classify(c["blocks"]):
+                break
+            for i, b in enumerate(c["blocks"]):
+                if b[0] == "p" and i > 0 and is_table(c["blocks"][i - 1]):
+                    b[1] = b[1] + " www"
+    return c
+
+
+def _gen_rtf_case(rng, adjacent=False):
     blocks = [["p", gen_para(rng)] for _ in range(rng.choice([0, 1, 1, 2]))]
     n = rng.randint(1, 3)
     for i in range(n):
@@ -108,7 +155,7 @@ def gen_rtf_case(rng, adjacent=False):
 def truth_of(blocks):
     out = []
     for b in blocks:
-        if b[0] == "t":
+        if is_table(b):
             w = max(len(r) for r in b[1])
             out.append([["\n".join(c) for c in r] + [""] * (w - len(r)) for r in b[1]])
     return out
@@ -121,14 +168,17 @@ def _normalised(p):
 def classify(blocks):
     """mechanisms of the open findings present in a written document -> set of keys (Python only)"""
     keys = set()
-    between, seen = None, False
+    between, seen, last_sep = None, False, "\n"
     for b in blocks:
-        if b[0] == "t":
+        if is_table(b):
+            lays = layouts_of(b)
             if seen and between is not None:
-                raw, text = gap_lengths(between)
+                raw, text = gap_lengths(between, last_sep, lays[0]["row_open"] if lays else "")
                 if not (raw > RAW_GAP and text > TEXT_GAP):
                     keys.add("rtf.adjacent-tables-merged")
             seen, between = True, []
+            if lays:
+                last_sep = behind_row(lays[-1])
             for row in b[1]:
                 for cell in row:
                     for p in cell:
@@ -145,19 +195,35 @@ def classify(blocks):
     return keys
 
 
-def hypotheses_hold(blocks):
-    """the region of C13_rtf_partial: plain cells, plain text, at least one row / cell, separated tables"""
+def layout_region(blocks):
+    """'default' (the layout of C13_rtf_partial) | 'row-end' (only what stands behind \\row varies: the documents of
+    C13_rtf_layout_partial, tied by C13_rtf_layout_tie) | 'all-slots' (correspondence + oracle only)"""
+    region = "default"
+    for b in blocks:
+        if b[0] == "tl":
+            for L in layouts_of(b):
+                if any(L[k] != c13r.DEFAULT[k] for k in c13r.KEYS if k != "row_end"):
+                    return "all-slots"
+                if L["row_end"] != c13r.DEFAULT["row_end"]:
+                    region = "row-end"
+    return region
+
+
+def hypotheses_hold(blocks, bmp_only=True):
+    """the region where the property is expected of the current code (no mechanism of an open finding): plain cells,
+    plain text, at least one row / cell, separated tables - whatever the row layouts; bmp_only: the region of the Lean
+    theorems (characters inside the BMP)"""
     if classify(blocks):
         return False
     for b in blocks:
-        if b[0] == "t":
+        if is_table(b):
             if not b[1] or any(not r for r in b[1]):
                 return False
-            if any(ord(ch) > 0xFFFF for r in b[1] for c in r for p in c for ch in p):
+            if bmp_only and any(ord(ch) > 0xFFFF for r in b[1] for c in r for p in c for ch in p):
                 return False
-        elif any(ch in b[1] for ch in "\\{}") or any(ord(ch) > 0xFFFF for ch in b[1]):
+        elif any(ch in b[1] for ch in "\\{}") or (bmp_only and any(ord(ch) > 0xFFFF for ch in b[1])):
             return False
-    return any(b[0] == "t" for b in blocks)
+    return any(is_table(b) for b in blocks)
 
 
 # ----------------------------------------------------------------------------- token stream
@@ -223,7 +289,9 @@ def corr(ctx, read_tables):
 
     # ---- written documents
     cases = [gen_rtf_case(rng, adjacent=(i % 3 == 0)) for i in range(ctx.n(90, 1500))]
-    outs = ctx.drive([{"op": "c13.rtf.render", "blocks": c["blocks"]} for c in cases])
+    cases += [{"blocks": b} for b in lattice_blocks()]
+    outs = ctx.drive([{"op": "c13.rtf.renderl" if any(b[0] == "tl" for b in c["blocks"]) else "c13.rtf.render", "blocks": c["blocks"]}
+                      for c in cases])
     treqs, items = [], []
     for c, o in zip(cases, outs):
         if "drv_error" in o:
@@ -237,8 +305,9 @@ def corr(ctx, read_tables):
         case = {"fmt": "rtf", "blocks": blocks}
         hyp = hypotheses_hold(blocks)
         ctx.case(("rtf", json.dumps(blocks)))
-        ctx.count("rtf/lean-rendered/" + ("theorem-region" if hyp else "outside"))
-        py = c13b.rtf_text(blocks)
+        ctx.count("rtf/lean-rendered/" + (("theorem-region" if layout_region(blocks) != "all-slots" else "layout-region") if hyp else "outside")
+                  + "/layout:" + layout_region(blocks))
+        py = c13r.rtf_text(blocks)
         if o["text"] != py:
             bad("c13.rtf.render:text", f"Lean writer {o['text']!r} != reference writer {py!r}", case)
             continue
@@ -251,7 +320,7 @@ def corr(ctx, read_tables):
         got = res if isinstance(res, str) else [x["table"] for x in res]
         if got != real:
             bad("read_rtf:rtf", f"iterate_tables()={got!r} _extract_tables={real!r}", case)
-        if hyp and real != o["spec"]:
+        if hypotheses_hold(blocks, bmp_only=False) and real != o["spec"]:
             bad("render-read:rtf", f"impl={real!r} spec={o['spec']!r}", case)
     if items:
         ctx.sample({"fmt": "rtf", "blocks": items[0][0]["blocks"], "impl": real_tables(items[0][1]["text"]), "spec": items[0][1]["spec"]})
@@ -265,7 +334,7 @@ def corr(ctx, read_tables):
         elif k in (1, 2):
             texts.append(rowish(rng))
         elif k == 3:
-            texts.append(mutate_text(rng, c13b.rtf_text(gen_rtf_case(rng, adjacent=True)["blocks"])))
+            texts.append(mutate_text(rng, c13r.rtf_text(gen_rtf_case(rng, adjacent=True)["blocks"])))
         else:
             texts.append(rand_tokens(rng, rng.randint(0, 8)) + rowish(rng) + rand_tokens(rng, rng.randint(0, 8)))
     p = _parser()
@@ -286,6 +355,39 @@ def corr(ctx, read_tables):
     return broken
 
 
+# ----------------------------------------------------------------------------- layout lattice
+LATTICE_ROWS = [[["Name"], ["Qty"], ["Price", "net"]], [["apple"], ["3"], ["1.50"]], [["pear"], [], ["0.80"]], [["plum"], ["7"]]]
+
+
+def lattice_pairs():
+    """the fixed table written once per PAIR of slots off the default (failing-input search only)"""
+    out = []
+    ks = c13r.KEYS
+    for i, k1 in enumerate(ks):
+        for k2 in ks[i + 1:]:
+            for v1 in c13r.SLOTS[k1]:
+                for v2 in c13r.SLOTS[k2]:
+                    if v1 != c13r.DEFAULT[k1] and v2 != c13r.DEFAULT[k2]:
+                        out.append([["p", "Intro"], ["tl", LATTICE_ROWS, [{k1: v1, k2: v2} for _ in LATTICE_ROWS]], ["p", "After"]])
+    return out
+
+
+def lattice_blocks():
+    """a fixed 4-row table (ragged, an empty and a two-paragraph cell) written once per (slot, option) with only that
+    slot off the default, once fully compact, once with every row its own separator behind \\row: the deterministic
+    part of the stream and the first inputs of the failing-input search"""
+    out = []
+    for k in c13r.KEYS:
+        for v in c13r.SLOTS[k]:
+            if v != c13r.DEFAULT[k]:
+                out.append([["p", "Intro"], ["tl", LATTICE_ROWS, [{k: v} for _ in LATTICE_ROWS]], ["p", "After"]])
+    compact = {"defs_close": "", "cell_end": "\\cell", "row_end": "", "par": "\\par\\pard\\intbl "}
+    out.append([["p", "Intro"], ["tl", LATTICE_ROWS, [compact for _ in LATTICE_ROWS]], ["p", "After"]])
+    out.append([["tl", LATTICE_ROWS, [{"row_end": v} for v in c13r.SLOTS["row_end"]]]])
+    out.append([["tl", LATTICE_ROWS, [{"row_end": "", "row_open": "{"} for _ in LATTICE_ROWS]], ["p", LONG], ["tl", LATTICE_ROWS[:2], [{"row_end": ""}, {"row_end": " "}]]])
+    return out
+
+
 # ----------------------------------------------------------------------------- oracle
 def oracle(case, read_tables, check_tables):
     """check_tables = c13._check_tables; -> [Violation]"""
@@ -296,7 +398,7 @@ def oracle(case, read_tables, check_tables):
                 v.key = case["mechanism"]
         return vs
     blocks = case["blocks"]
-    vs = check_tables("rtf", read_tables(c13b.rtf_doc(blocks)), truth_of(blocks), case)
+    vs = check_tables("rtf", read_tables(c13r.rtf_doc(blocks)), truth_of(blocks), case)
     keys = sorted(classify(blocks))
     for v in vs:
         if v.key == "rtf.tables-differ" and keys:
